@@ -9,19 +9,20 @@ from . import graphsnap as S
 
 def plan(tier):
     if tier == "quick":
-        return ["tut13", "gui3", "get2"]
-    return ["tut13", "gui3", "get2", "minc", "tut1", "tut2", "tut3dot", "gui4", "leaves2", "normal3"]
+        return ["tut13", "gui3", "get2", "tut3fed"]
+    return ["tut3fed", "tut13", "gui3", "get2", "minc", "tut1", "tut2", "tut3dot", "gui4", "leaves2", "normal3"]
 
 
 def eager_graph(name, with_expected=False, reference=None):
-    restr, nets = R.SELECTIONS[name]
+    restr, nets = R.SELECTIONS[name][:2]
+    vm_strs, variant = R.vm_strs_of(name)
     t0 = time.time()
-    g, rec = R.parse_eager(restr, nets)
+    g, rec = R.parse_eager(restr, nets, vm_strs=vm_strs)
     snap = S.snapshot(g, rec)
     snap["unexpanded"] = []
     snap["label"] = "%s eager (%s on %s)" % (name, restr, nets)
     if with_expected:
-        snap["expected"] = [list(e) for e in R.expected_edges(C.REPO, restr)]
+        snap["expected"] = [list(e) for e in R.expected_edges(C.REPO, restr, variant)]
         snap["hasexpected"] = True
     if reference is not None:
         snap["reference"] = [list(e) for e in reference]
@@ -33,7 +34,7 @@ def eager_graph(name, with_expected=False, reference=None):
 def lazy_graphs(name, seeds, work):
     """real lazy traversals (parse on demand) with the parse recorder installed; returns snapshots after the traversal"""
     from ..sched import pool as P
-    restr, nets = R.SELECTIONS[name]
+    restr, nets = R.SELECTIONS[name][:2]
     rec = S.ParseRecorder()
     rec.install()
     try:
